@@ -2,6 +2,7 @@
 import os
 import pickle
 import sys
+import uuid
 
 import lena.core 
 import lena.context
@@ -209,7 +210,11 @@ class Cache(object):
         # of the cache only when the flow is exhausted. If the run
         # is interrupted (any element raises, or this generator
         # is closed), no truncated cache is left to be loaded later.
-        tmp_filename = self._filename + ".tmp"
+        # Every run has its own temporary file: a run that is still
+        # suspended (its iterator or traceback is kept somewhere)
+        # while another run fills the same cache must not share
+        # an open file with it.
+        tmp_filename = "{}.{}.tmp".format(self._filename, uuid.uuid4().hex)
         try:
             with open(tmp_filename, "wb") as f:
                 dump = lambda val: self._dump(val, f, self.protocol)
